@@ -457,6 +457,17 @@ func c01Cases(kind string, seed uint64, n int) []c01Case {
 			}
 			out = sel
 		}
+		// always: the filters that count or cut, with every width, over texts whose characters are several bytes wide
+		for _, txt := range []string{"http://пример.рф/очень/длинный/путь/к/странице", "www.例え.jp/日本語/パス и ещё текст", "ääää öööö üüüü ßßßß", "e\u0301e\u0301e\u0301 a\u0308", "<p>héllo <b>wörld</b></p>", "𝒳𝒴𝒵 😀😀😀 ok"} {
+			for _, f := range []string{"urlizetrunc", "truncatechars", "truncatewords", "truncatechars_html", "truncatewords_html", "center", "ljust", "rjust", "wordwrap", "get_digit"} {
+				for w := 0; w <= 70; w++ {
+					out = append(out, c01Case{Src: fmt.Sprintf("{{ %q|%s:%d }}", txt, f, w), Ctx: "nil", Sig: "paths"})
+				}
+			}
+			for w := -3; w <= 30; w++ {
+				out = append(out, c01Case{Src: fmt.Sprintf(`{{ %q|slice:"%d:" }}{{ %q|slice:":%d" }}`, txt, w, txt, w), Ctx: "nil", Sig: "paths"})
+			}
+		}
 		// always: every value of the universe handed to every function with a typed parameter
 		for _, f := range exTypedFuncs {
 			for _, k := range exNames {
@@ -512,6 +523,13 @@ func c01Cases(kind string, seed uint64, n int) []c01Case {
 		mk("lazy-missing", "a.tpl", map[string]string{"a.tpl": `{% set n = "nope.tpl" %}{% include n %}`})
 		mk("lazy-missing", "a.tpl", map[string]string{"a.tpl": `{% set n = "bad.tpl" %}{% for q in "ab" %}{% include n if_exists %}{% endfor %}`, "bad.tpl": `{% if %}`})
 		mk("lazy-missing", "a.tpl", map[string]string{"a.tpl": `{% set n = "bad.tpl" %}{% include n %}`, "bad.tpl": `{{ 1|nosuchfilter }}`})
+		// a computed include whose template fails while executing, with an error that carries no position of its own
+		mk("lazy-nested-failure", "a.tpl", map[string]string{"a.tpl": `{% set n = "p.tpl" %}[{% include n %}]`, "p.tpl": `x{% include nosuchname %}y`})
+		mk("lazy-nested-failure", "a.tpl", map[string]string{"a.tpl": `{% set n = "p.tpl" %}[{% include n %}]`, "p.tpl": `{% set m = "" %}x{% include m %}y`})
+		mk("lazy-nested-failure", "a.tpl", map[string]string{"a.tpl": `{% set n = "p.tpl" %}[{% include n %}]`, "p.tpl": `{% set m = "gone.tpl" %}x{% include m %}y`})
+		mk("lazy-nested-failure", "a.tpl", map[string]string{"a.tpl": `{% set n = "p.tpl" %}{% set foo = 1 %}[{% include n %}]`, "p.tpl": `{% macro foo() export %}{% endmacro %}x`})
+		mk("lazy-nested-failure", "a.tpl", map[string]string{"a.tpl": `{% set n = "p.tpl" %}{% for q in "ab" %}{% include n with k=1 %}{% endfor %}`, "p.tpl": `{% set m = "q.tpl" %}{% include m %}`, "q.tpl": `{% include nosuchname %}`})
+		mk("lazy-nested-failure", "a.tpl", map[string]string{"a.tpl": `{% macro mm() %}{% set n = "p.tpl" %}{% include n %}{% endmacro %}{{ mm() }}`, "p.tpl": `{% include nosuchname %}`})
 		mk("deep-nesting", "a.tpl", map[string]string{"a.tpl": strings.Repeat("{% if 1 %}", 2000) + "x" + strings.Repeat("{% endif %}", 2000)})
 		mk("deep-parens", "a.tpl", map[string]string{"a.tpl": "{{ " + strings.Repeat("(", 5000) + "1" + strings.Repeat(")", 5000) + " }}"})
 		mk("deep-array", "a.tpl", map[string]string{"a.tpl": "{{ " + strings.Repeat("[", 3000) + "1" + strings.Repeat("]", 3000) + " }}"})
